@@ -28,7 +28,7 @@ from ..core import Ctx, key_of
 from ..dep import data, full
 from ..model import AnchorMissing, Inconclusive, dotted, norm, own_nodes
 from ..order import interval_profile, matches, order_table
-from .common import facts_of, heap_writes, key_of_text, returns
+from .common import facts_of, heap_writes, key_of_text, returns, maybe_true
 
 META = {
     "level": "other",
@@ -316,7 +316,7 @@ def run(ctx: Ctx):
     slotp = avail.params[1]
     cnt = 0
     for r in returns(avail):
-        if isinstance(r.value, ast.Constant) and r.value.value is True:
+        if maybe_true(r):
             cnt += 1
             node = g.node_of(r)
             cl = facts.holds(node, lambda t, p: (p and t == f"self.onShift({slotp})") or
